@@ -39,9 +39,12 @@ int main(int argc, char** argv)
     // after the regular cases (their numbers stay): the same kind of system with right-hand side and start scaled by 2^-40
     // (entries near 1e-12, residual entries below 1e-16 long before convergence)
     int nextra = ncases / 3;
-    for (int it0 = 0; it0 < ncases + nextra; it0++)
+    // ... and then (distributed): preconditioned CG on a zero right-hand side, from the exact solution, and on a scaled system
+    int npcg = seq ? 0 : ncases / 2;
+    for (int it0 = 0; it0 < ncases + nextra + npcg; it0++)
     {
-        bool tiny = it0 >= ncases; int it = tiny ? (it0 - ncases) * 3 : it0;
+        bool tiny = it0 >= ncases && it0 < ncases + nextra; int pcgv = it0 >= ncases + nextra ? 1 + (it0 - ncases - nextra) % 3 : 0;
+        int it = tiny ? (it0 - ncases) * 3 : pcgv ? (it0 - ncases - nextra) * 3 : it0;
         int cap = 2 + std::min(60, 2 * it);
         int n = std::max(seq ? 1 : np, g.range(1, cap));
         int method = g.below(2);                 // 0 CG (SPD), 1 BiCGStab (non-symmetric)
@@ -53,7 +56,7 @@ int main(int argc, char** argv)
         if (start == 2) { b.assign(n, 0.0); for (auto& v : x0) v = (g.unit() - 0.5) * 2; }
         else { b = g.coin() ? Axs : std::vector<double>(); if (b.empty()) { b.resize(n); for (auto& v : b) v = (g.unit() - 0.5) * 4; }
                if (start == 1 && b == Axs) x0 = xs; else if (start == 3) x0.assign(n, 0.0); else for (auto& v : x0) v = (g.unit() - 0.5) * 2; }
-        if (tiny) { double sc = std::ldexp(1.0, -40); for (auto& v : xs) v *= sc; for (auto& v : x0) v *= sc; for (auto& v : b) v *= sc; }
+        if (tiny) { double sc = std::ldexp(1.0, (it0 % 2) ? -40 : -70); for (auto& v : xs) v *= sc; for (auto& v : x0) v *= sc; for (auto& v : b) v *= sc; }
         double tol = g.coin() ? 1e-5 : (g.coin() ? 1e-9 : 1e-2); int max_iter = g.coin(1, 3) ? g.range(1, 6) : -1;
         char ctx[128]; snprintf(ctx, 128, "%s/%s/start%d/n%d/maxit%d", seq ? "seq" : "par", method ? "bicgstab" : "cg", start, n, max_iter);
         E.about(ctx);
@@ -96,7 +99,7 @@ int main(int argc, char** argv)
         // preconditioned CG (distributed only): history in the solver's scaling (r_k, M r_k)/(b, M b) against the same
         // quantity recomputed from the true residual of the k-th iterate (x_k recovered with max_iter = k; M = one cycle
         // of the hierarchy, applied through the library's own cycle(), which C09 ties to its model)
-        if (!seq && it % 3 == 1) {
+        auto pcg_case = [&](vh::Rng& g, int it, int variant) {
             int n2 = std::max(np, g.range(4, 12 + 2 * it));
             vh::Trip t2 = gen_sys(g, n2, true);
             vh::Rng gl(E.seed * 41 + it); int style = gl.coin() ? 1 : 2 + gl.below(2); std::vector<int> R = vh::compose(gl, n2, np, style);
@@ -104,13 +107,18 @@ int main(int argc, char** argv)
             ParCOOMatrix* Ac = vh::assemble_coo(t2, L, rank); ParCSRMatrix* A = Ac->to_ParCSR();
             int f2 = A->partition->first_local_row, lr = A->local_num_rows;
             int solver = g.below(2); int maxit = g.coin(3, 4) ? g.range(9, 14) : g.range(1, 6); double tol2 = g.coin(3, 4) ? 1e-30 : 1e-4;
-            snprintf(ctx, 128, "par/pcg/solver%d/n%d/maxit%d/style%d", solver, n2, maxit, style); E.about(ctx);
+            snprintf(ctx, 128, "par/pcg/v%d/solver%d/n%d/maxit%d/style%d", variant, solver, n2, maxit, style); E.about(ctx);
             silence(true);
             ParMultilevel* ml = solver == 0 ? (ParMultilevel*)new ParRugeStubenSolver(0.25, CLJP, ModClassical, Classical, SOR)
                                            : (ParMultilevel*)new ParSmoothedAggregationSolver(0.0, MIS, JacobiProlongation, Symmetric, SOR, 1, 4.0 / 3);
             ml->max_coarse = 3; ml->setup(A);
             std::vector<double> xs2(n2), x02(n2), b2(n2); for (auto& v : xs2) v = g.range(-3, 3); for (auto& v : x02) v = (g.unit() - 0.5) * 2;
             for (auto& v : b2) v = (g.unit() - 0.5) * 4;
+            // variants (trailing cases only): 1 zero right-hand side, 2 start at the exact solution, 3 system scaled by 2^-40
+            if (variant == 1) b2.assign(n2, 0.0);
+            if (variant == 2) { b2.assign(n2, 0.0); for (size_t k = 0; k < t2.r.size(); k++) b2[t2.r[k]] += t2.v[k] * xs2[t2.c[k]]; x02 = xs2; }
+            if (variant == 3) { double sc = std::ldexp(1.0, -40); for (auto& v : b2) v *= sc; for (auto& v : x02) v *= sc; }
+            if (variant != 0) { tol2 = (it % 2) ? 1e-4 : 1e-8; maxit = 12; }
             ParVector x(n2, lr), bb(n2, lr), r(n2, lr), z(n2, lr);
             vh::fill_vec(bb, b2, f2);
             z.set_const_value(0.0); ml->cycle(z, bb); double b_inner = bb.inner_product(z);
@@ -127,9 +135,10 @@ int main(int argc, char** argv)
             }
             silence(false);
             bool want3 = E.want();
-            if (rank == 0 && want3) { vh::Case c("C17", "pcg"); c.i(np).i(solver).i(n2).d(tol2).i(maxit).d(b_inner).dvec(full).dvec(truev).vec(prefix_ok); c.write(E.out); }
+            if (rank == 0 && want3) { vh::Case c("C17", "pcg"); c.i(np).i(solver + 10 * variant).i(n2).d(tol2).i(maxit).d(b_inner).dvec(full).dvec(truev).vec(prefix_ok); c.write(E.out); }
             delete ml; delete A; delete Ac;
-        }
+                };
+        if (!seq && (it % 3 == 1 || pcgv)) pcg_case(g, it, pcgv);
         // inner product and norm, with a non-finite entry in a random position on a random rank
         if (it % 3 == 0) {
             int kind = g.below(4);       // 0 finite, 1 NaN, 2 +Inf, 3 tiny entries
